@@ -464,6 +464,11 @@ impl Check for C06 {
     }
     fn execute(&self, sc: &ConnScenario) -> RunReport {
         let mut slow_status = false;
+        // every generated script ends with the client hanging up (a scripted client that stays and never echoes
+        // is timed out after two keep-alive periods - C07's subject, not this automaton's)
+        if !sc.client.script.as_ref().is_some_and(|st| matches!(st.last(), Some(Step::Close { .. }))) {
+            return RunReport::default();
+        }
         if !conn_domain_ok(sc) || sc.client.script.is_none() || !sc.client.mutations.is_empty() || !transport_is_zero_time(sc) {
             return RunReport::default();
         }
